@@ -84,6 +84,15 @@ pub fn join_tokens(toks: &[String], style: usize, rng: &mut Rng) -> String {
     s
 }
 
+const LIT_VALUES: &[&str] = &[
+    "1", "0", "255", "340282366920938463463374607431768211455", "65536", "0xFFFFFFFFFFFFFFFFFFFFFFFFFFFFFFFF", "18446744073709551615", "7",
+    "170141183460469231731687303715884105728", "0b1111", "18446744073709551616", "0x0",
+];
+const SUF_VALUES: &[&str] = &[
+    "1u8", "0i8", "340282366920938463463374607431768211455u128", "255u8", "127i8", "65535u16", "170141183460469231731687303715884105727i128",
+    "18446744073709551615u64", "0usize",
+];
+
 /// The token alphabet of spec/DeltaBuffers.tla (names are lexemes, except str / chr / bad).
 pub fn lexeme(name: &str) -> String {
     match name {
@@ -1010,6 +1019,10 @@ pub fn resolve(case: &Value, corpus: &[String]) -> Input {
                             _ => format!("\"ab{c}\""),
                         },
                         "badchr" => format!("'{c}'"),
+                        // integer literals: boundary values of every width instead of always `1` (which literal comes
+                        // first in a module is a function of the case)
+                        "lit" => LIT_VALUES[(salt + 5 * k) % LIT_VALUES.len()].to_string(),
+                        "suf" => SUF_VALUES[(salt + 3 * k) % SUF_VALUES.len()].to_string(),
                         _ => lexeme(t),
                     }
                 })
